@@ -13,7 +13,7 @@ import os
 import sys
 
 SHAPES = ["unit", "tuple", "named", "enum", "generic", "generic_e_where", "generic_e_inline"]
-RETS = ["none", "unit", "u32", "result", "std_result", "path_result", "alias"]
+RETS = ["none", "unit", "u32", "result", "std_result", "path_result", "path4_result", "result_longerr", "alias"]
 ATTRS = ["plain", "result", "no_log", "result_no_log", "bogus", "assign"]
 MSGV = ["plain", "generic_extra"]
 
@@ -24,10 +24,12 @@ RET_TYPE = {
     "result": "Result<u32, String>",
     "std_result": "std::result::Result<u32, String>",
     "path_result": "other::Result<u32>",
+    "path4_result": "deep::er::still::Result<u32>",
+    "result_longerr": "Result<u32, String>",
     "alias": "MyRes",
 }
-IS_RESULT = {"result", "std_result", "path_result", "alias"}
-SYNTACTIC_RESULT = {"result", "std_result", "path_result"}  # last path segment is literally `Result`
+IS_RESULT = {"result", "std_result", "path_result", "path4_result", "result_longerr", "alias"}
+SYNTACTIC_RESULT = {"result", "std_result", "path_result", "path4_result", "result_longerr"}  # last path segment is literally `Result`
 ATTR_SRC = {
     "plain": "#[handler]",
     "result": "#[handler(result)]",
@@ -85,6 +87,10 @@ def body_for(ret):
         return "let _ = flag;", None
     if ret == "u32":
         return "if flag { 41 } else { 42 }", None
+    if ret == "result_longerr":
+        # an error text of several kilobytes of three-byte characters (with one byte of padding so that no power-of-two
+        # offset is a character boundary), the way an error echoing a payload in some scripts looks
+        return 'if flag { Err(format!("boom x{}", "\\u{d55c}\\u{ae00}".repeat(1500))) } else { Ok(1) }', None
     return 'if flag { Err("boom".to_string()) } else { Ok(1) }', None
 
 
@@ -93,6 +99,8 @@ def expected_reply(ret, flag):
         return "()"
     if ret == "u32":
         return "41" if flag else "42"
+    if ret == "result_longerr" and flag:
+        return 'Err("boom x' + "\ud55c\uae00" * 1500 + '")'
     return 'Err("boom")' if flag else "Ok(1)"
 
 
@@ -128,6 +136,13 @@ pub mod p{idx} {{
     pub type MyRes = std::result::Result<u32, String>;
     pub mod other {{
         pub type Result<T> = std::result::Result<T, String>;
+    }}
+    pub mod deep {{
+        pub mod er {{
+            pub mod still {{
+                pub type Result<T> = std::result::Result<T, String>;
+            }}
+        }}
     }}
     {tdef}
     {msg_def}
